@@ -45,7 +45,7 @@ ASSUMPTIONS = [
     "the stream flowing (<= 1.1 MiB, the receiver's own packet limit is 1 MiB) before it demands the disconnect",
     "the observation point is SSHTransportBase.dispatchMessage (public, documented); KEXINIT is recorded, not processed",
 ]
-MIN = {"quick": {"evaluations": 347000, "nontrivial": 324000, "outcomes": 3},
+MIN = {"quick": {"evaluations": 370000, "nontrivial": 346000, "outcomes": 3},
        "thorough": {"evaluations": 2000000, "nontrivial": 2000000, "outcomes": 3}}
 
 MSG_IGNORE, MSG_KEXINIT, MSG_NEWKEYS, MSG_DATA = 2, 20, 21, 94
